@@ -31,7 +31,7 @@ type G struct {
 
 	// capabilities, probed once
 	CanBase, CanMulNil, CanPick, CanEmbed, CanHash, CanData bool
-	PanicsSeen                                             map[string]string // op -> first non-"unsupported" panic text seen by the probe
+	PanicsSeen                                              map[string]string // op -> first non-"unsupported" panic text seen by the probe
 
 	// encodings of the library's constants taken once, before any workload ran (to detect a workload step that corrupts
 	// state shared by all values of the group, e.g. a cached identity)
